@@ -188,10 +188,19 @@ def run(shard, ctx):
             nc, m = NoteContainer(), SetModel()
             hist = []
             for step in range(rng.randint(1, 40)):
-                op = rng.randrange(12) if rng.random() < 0.93 else rng.choice([12, 13])
+                op = rng.randrange(12) if rng.random() < 0.9 else rng.choice([12, 13, 14, 15, 16, 17])
                 n = rng.choice(NAMES16)
                 o = rng.choice([0, 1, 2, 3, 4, 5, 6, 3, 4, 5])
-                if op == 12:
+                if op == 14:
+                    # the container's own list of notes handed back to it
+                    f = lambda: nc.remove_notes(nc.notes); m.m = []; hist.append(("remove_notes(its own notes list)",))
+                elif op == 15:
+                    f = lambda: nc - nc; m.m = []; hist.append(("- itself",))
+                elif op == 16:
+                    f = lambda: nc.add_notes(nc.notes); hist.append(("add_notes(its own notes list)",))
+                elif op == 17:
+                    f = lambda: nc + nc; hist.append(("+ itself",))
+                elif op == 12:
                     # the container is emptied and used again
                     f = lambda: nc.empty(); m.m = []; hist.append(("empty",))
                 elif op == 13:
